@@ -616,8 +616,22 @@ def r5_negation_not_dropped(ctx) -> None:
     elif swapped:
         r.ok("C01.R5", cm.qual, f"{len(swapped)} templates are replaced by their own negated counterparts while the manager is active (interpreted)", cm.loc)
     leaf_templates = {}
-    for q, f in sorted(prog.funcs.items()):
-        if q.startswith(TQ + ".convert_condition_field_") and f.name not in ("convert_condition_field_eq_val", "convert_condition_field_eq_expansion"):
+    # the leaf handlers and the private helpers of the class they call (a helper may select the template)
+    leaf_funcs = [f for q, f in sorted(prog.funcs.items()) if q.startswith(TQ + ".convert_condition_field_") and f.name not in ("convert_condition_field_eq_val", "convert_condition_field_eq_expansion")]
+    seen_h = {f.qual for f in leaf_funcs}
+    work = list(leaf_funcs)
+    while work:
+        f0 = work.pop()
+        for c0 in walk_no_nested(f0.node):
+            if isinstance(c0, ast.Call) and call_name(c0).startswith("self._") and call_name(c0).count(".") == 1:
+                hm = prog.lookup_method(TQ, call_name(c0)[5:])
+                if hm is not None and hm.qual not in seen_h:
+                    seen_h.add(hm.qual)
+                    leaf_funcs.append(hm)
+                    work.append(hm)
+    for f in leaf_funcs:
+        q = f.qual
+        if True:
             for n in walk_no_nested(f.node):
                 if isinstance(n, ast.Attribute) and unparse(n.value) == "self" and isinstance(n.ctx, ast.Load) and (n.attr.endswith("_expression") or n.attr.endswith("_token")) \
                         and not n.attr.endswith("_allow_special") and n.attr not in ("group_expression",) and prog.lookup_class_attr(TQ, n.attr) is not None \
@@ -626,11 +640,11 @@ def r5_negation_not_dropped(ctx) -> None:
     unswapped = sorted(t for t in leaf_templates if t not in swapped and not t.startswith(("not_", "case_sensitive_not_")) and t not in ("field_exists_expression", "field_not_exists_expression", "explicit_not_exists_expression"))
     r.analysed["C01.swapped_templates"] = swapped
     r.analysed["C01.leaf_templates_not_swapped"] = unswapped
-    if unswapped:
-        r.violation("C01.R5", cm.qual, f"templates not swapped: {', '.join(unswapped)}",
-                    "in not-equals mode convert_condition_not returns the leaf expression as it is; leaf handlers read these templates, which have no negated counterpart in the swap set, "
+    for t in unswapped:
+        r.violation("C01.R5", cm.qual, f"template not swapped: {t}",
+                    f"in not-equals mode convert_condition_not returns the leaf expression as it is; a leaf handler ({leaf_templates[t].rsplit('.', 1)[-1]}) reads this template, which has no negated counterpart in the swap set, "
                     "so e.g. 'not a=1' (number), 'not a is null', comparisons and field references are rendered without any negation", cm.loc)
-    else:
+    if not unswapped:
         r.ok("C01.R5", cm.qual, f"every leaf template is in the swap set {swapped}", cm.loc)
     # parity of the ancestor test
     fe = prog.func(TQ + ".convert_condition_field_eq_val")
@@ -667,94 +681,82 @@ def r5_negation_not_dropped(ctx) -> None:
 
 
 # ------------------------------------------------------------------------------------------ R7
-def _branches(prog, f: FuncInfo) -> list[dict]:
-    """if/elif chain assigning expr and value in the string converters."""
-    out = []
-    top = [n for n in walk_no_nested(f.node) if isinstance(n, ast.If) and any(isinstance(s, ast.Assign) and unparse(s.targets[0]) == "expr" for s in n.body)]
-    if not top:
-        raise AnalysisError(f"{f.qual}: template selection chain not found")
-    node: Optional[ast.If] = min(top, key=lambda n: n.lineno)
-    while node is not None:
-        a = {unparse(s.targets[0]): unparse(s.value) for s in node.body if isinstance(s, ast.Assign)}
-        out.append({"test": node.test, "expr": a.get("expr"), "value": a.get("value"), "line": node.lineno})
-        if len(node.orelse) == 1 and isinstance(node.orelse[0], ast.If):
-            node = node.orelse[0]
-        else:
-            a = {unparse(s.targets[0]): unparse(s.value) for s in node.orelse if isinstance(s, ast.Assign)}
-            out.append({"test": None, "expr": a.get("expr"), "value": a.get("value"), "line": node.orelse[0].lineno if node.orelse else node.lineno})
-            node = None
-    return out
-
-
 def r7_string_shortcuts(ctx) -> None:
+    """Both string converters interpreted (sa.tabulate, Proxy) on stand-in strings, over every combination of defined
+    templates and allow_special switches, and compared with the specified selection."""
+    import itertools
+    import types as _types
+    from ..tabulate import Proxy, call_method, Raised
     r, prog = ctx.r, ctx.prog
-    r.rule("C01.R7", "string shortcuts: each branch pairs its template with the wildcard guards, the slice that strips exactly those wildcards and the same slice in the contains_special test; the case-sensitive sibling agrees branch by branch")
-    spec = {  # template suffix -> (guards, slice)
-        "startswith_expression": ({"cond_value.endswith(SpecialChars.WILDCARD_MULTI)"}, "cond_value[:-1]"),
-        "endswith_expression": ({"cond_value.startswith(SpecialChars.WILDCARD_MULTI)"}, "cond_value[1:]"),
-        "contains_expression": ({"cond_value.startswith(SpecialChars.WILDCARD_MULTI)", "cond_value.endswith(SpecialChars.WILDCARD_MULTI)"}, "cond_value[1:-1]"),
-    }
-    shapes = {}
+    r.rule("C01.R7", "string shortcuts: the template chosen for a string, the part of the string passed to it and the wildcards stripped agree — startswith for 'x*' (rest without wildcards unless allowed), endswith for '*x', contains for '*x*', the wildcard-match template for other strings with wildcards, equality otherwise; the case-sensitive sibling selects alike and fails instead of falling back to a case-insensitive template (both converters interpreted over all template configurations x 14 string shapes)")
+    WM, WS = "<*>", "<?>"
+
+    class SigmaString:
+        def __init__(self, e): self.e = list(e)
+        def startswith(self, o): return bool(self.e) and (self.e[0] == o if o in (WM, WS) else self.e[0] not in (WM, WS) and self.e[0] == o)
+        def endswith(self, o): return bool(self.e) and (self.e[-1] == o if o in (WM, WS) else self.e[-1] not in (WM, WS) and self.e[-1] == o)
+        def contains_special(self): return any(x in (WM, WS) for x in self.e)
+        def __getitem__(self, k):
+            return SigmaString(self.e[k]) if isinstance(k, slice) else SigmaString([self.e[k]])
+        def __len__(self): return len(self.e)
+        def to_regex(self, *a, **k): return "re:" + "".join(self.e)
+        def __str__(self): return "".join(self.e)
+        __repr__ = __str__
+
+    SpecialChars = _types.SimpleNamespace(WILDCARD_MULTI=WM, WILDCARD_SINGLE=WS)
+    env = {"SigmaString": SigmaString, "SpecialChars": SpecialChars}
+    IK = {"max_steps": 4000, "behaviours": (NotImplementedError, TypeError, AttributeError)}
+    shapes = [["a", "b"], ["a", WM], [WM, "a"], [WM, "a", WM], ["a", WM, "b"], [WM, "a", WM, "b"], ["a", WM, "b", WM], [WM, "a", WM, "b", WM],
+              ["a", WS], [WS, "a", WM], [WM], [WM, WM], [], [WM, WS, WM]]
+
+    def spec(cfg, e, prefix):
+        def has_special(x): return any(y in (WM, WS) for y in x)
+        t = lambda n: cfg.get(prefix + n)  # noqa: E731
+        if t("startswith_expression") is not None and e and e[-1] == WM and (cfg.get(prefix + "startswith_expression_allow_special") or not has_special(e[:-1])):
+            return t("startswith_expression"), e[:-1]
+        if t("endswith_expression") is not None and e and e[0] == WM and (cfg.get(prefix + "endswith_expression_allow_special") or not has_special(e[1:])):
+            return t("endswith_expression"), e[1:]
+        if t("contains_expression") is not None and e and e[0] == WM and e[-1] == WM and (cfg.get(prefix + "contains_expression_allow_special") or not has_special(e[1:-1])):
+            return t("contains_expression"), e[1:-1]
+        if not prefix:
+            if cfg.get("wildcard_match_expression") is not None and has_special(e):
+                return cfg["wildcard_match_expression"], e
+            return cfg["eq_expression"], e
+        if cfg.get("case_sensitive_match_expression") is not None:
+            return cfg["case_sensitive_match_expression"], e
+        return None, None
+
+    n_cases = 0
     for fn, prefix in (("convert_condition_field_eq_val_str", ""), ("convert_condition_field_eq_val_str_case_sensitive", "case_sensitive_")):
         f = prog.func(f"{TQ}.{fn}")
-        brs = _branches(prog, f)
-        shape = []
-        for b in brs:
-            loc = f"{f.module.relpath}:{b['line']}"
-            tmpl = (b["expr"] or "").replace("self.", "")
-            key = tmpl[len(prefix):] if tmpl.startswith(prefix) else tmpl
-            shape.append(key)
-            if key in spec:
-                guards, sl = spec[key]
-                atoms = {unparse(v) for v in (b["test"].values if isinstance(b["test"], ast.BoolOp) else [b["test"]])}
-                flat = set()
-                for v in (b["test"].values if isinstance(b["test"], ast.BoolOp) else [b["test"]]):
-                    flat.add(unparse(v))
-                want_atoms = {f"self.{tmpl} is not None"} | guards
-                special = [a for a in flat if "contains_special" in a]
-                ok_ = want_atoms <= flat and b["value"] == sl and len(special) == 1 and \
-                    special[0].replace(" ", "") == f"self.{tmpl}_allow_specialornot{sl}.contains_special()".replace(" ", "")
-                extra = flat - want_atoms - set(special)
-                if ok_ and not extra:
-                    r.ok("C01.R7", f.qual, f"{tmpl}: guards {sorted(guards)} ⇔ value {sl} ⇔ special test on {sl}", loc)
-                else:
-                    r.violation("C01.R7", f.qual, f"{tmpl}: value={b['value']}, test={short(b['test'], 200)}",
-                                f"branch must require {sorted(want_atoms)}, test contains_special on {sl} and pass {sl} to the template: a slice that does not strip exactly the guarded wildcards changes the matched strings", loc)
-            elif key == "wildcard_match_expression":
-                if b["value"] == "cond_value" and unparse(b["test"]).replace(" ", "") == f"self.{tmpl}isnotNoneandcond_value.contains_special()".replace(" ", ""):
-                    r.ok("C01.R7", f.qual, f"{tmpl}: whole value, only if it contains wildcards", loc)
-                else:
-                    r.violation("C01.R7", f.qual, f"{tmpl}: value={b['value']}", "wildcard-match branch must pass the whole value and require contains_special()", loc)
-            elif key == "eq_expression":
-                if b["value"] == "cond_value" and b["test"] is None:
-                    r.ok("C01.R7", f.qual, f"{tmpl}: fallback with the whole value", loc)
-                else:
-                    r.violation("C01.R7", f.qual, f"{tmpl}: value={b['value']}", "equality fallback must be the last branch and pass the whole value", loc)
-            elif key == "match_expression" and prefix:
-                if b["value"] == "cond_value" and unparse(b["test"]) == f"self.{tmpl} is not None":
-                    r.ok("C01.R7", f.qual, f"{tmpl}: whole value", loc)
-                else:
-                    r.violation("C01.R7", f.qual, f"{tmpl}: value={b['value']}", "case-sensitive match branch must pass the whole value", loc)
-            elif not tmpl and b["test"] is None and prefix:
-                shape.pop()
-                r.ok("C01.R7", f.qual, "no case-sensitive template → error, never a silent case-insensitive match", loc)
-            else:
-                r.violation("C01.R7", f.qual, f"template {tmpl}", "unknown template in the string shortcut chain", loc)
-        shapes[fn] = shape
-        fm = [c for c in walk_no_nested(f.node) if isinstance(c, ast.Call) and call_name(c) == "expr.format"]
-        if len(fm) == 1:
-            kws = {k.arg: unparse(k.value) for k in fm[0].keywords}
-            if kws.get("value") == "self.convert_value_str(value, state)" and kws.get("field") == "self.escape_and_quote_field(cond.field)":
-                r.ok("C01.R7", f.qual, "template receives the sliced value and the escaped field", f"{f.module.relpath}:{fm[0].lineno}")
-            else:
-                r.violation("C01.R7", f.qual, short(fm[0], 160), "template must receive value=convert_value_str(value) (the *sliced* value) and the escaped field", f"{f.module.relpath}:{fm[0].lineno}")
-    a, b = shapes.get("convert_condition_field_eq_val_str"), shapes.get("convert_condition_field_eq_val_str_case_sensitive")
-    if a == ["startswith_expression", "endswith_expression", "contains_expression", "wildcard_match_expression", "eq_expression"] \
-            and b == ["startswith_expression", "endswith_expression", "contains_expression", "match_expression"]:
-        r.ok("C01.R7", TQ, f"sibling agreement: {a} / case-sensitive {b} (the case-sensitive converter has one general match template instead of wildcard-match + equality)")
-    else:
-        r.violation("C01.R7", TQ, f"{a} vs {b}", "case-insensitive and case-sensitive string converters disagree on the branch order/templates")
-    r.floor("C01.R7", 12)
+        names = ["startswith_expression", "endswith_expression", "contains_expression"] + (["wildcard_match_expression"] if not prefix else ["match_expression"])
+        bad = None
+        for defined in itertools.product((True, False), repeat=4):
+            for allow in ((False, False, False), (True, False, False), (False, True, False), (False, False, True), (True, True, True)):
+                cfg = {prefix + n: (f"{prefix}{n}({{field}}|{{value}})" if d else None) for n, d in zip(names, defined)}
+                cfg.update({prefix + n + "_allow_special": a for n, a in zip(names[:3], allow)})
+                cfg["eq_expression"] = "eq_expression({field}|{value})"
+                attrs = dict(cfg, escape_and_quote_field=lambda x: f"<{x}>", convert_value_str=lambda v, st: f"[{v}]", convert_value_re=lambda v, st: f"/{v}/", add_escaped_re="")
+                me = Proxy(prog, TQ, env, attrs, interp_kwargs=IK)
+                for e in shapes:
+                    n_cases += 1
+                    cond = _types.SimpleNamespace(field="f", value=SigmaString(e))
+                    want_t, want_v = spec(cfg, e, prefix)
+                    want = want_t.format(field="<f>", value="[" + "".join(want_v) + "]") if want_t is not None else "NotImplementedError"
+                    try:
+                        got = call_method(prog, TQ, fn, me, env, cond, object(), interp_kwargs=IK)
+                    except Raised as ex:
+                        got = "NotImplementedError" if "NotImplementedError" in str(ex) else f"raises {ex}"
+                    if got != want and bad is None:
+                        on = [n for n, d in zip(names, defined) if d]
+                        bad = f"string {''.join(e)!r} with templates {on} defined, allow_special {dict(zip(names[:3], allow))}: {got!r} instead of {want!r}"
+        if bad:
+            r.violation("C01.R7", f.qual, "template and value slice chosen for a string",
+                        f"a slice that does not strip exactly the guarded wildcards, or a template used for another wildcard position, changes the matched strings: {bad}", f.loc)
+        else:
+            r.ok("C01.R7", f.qual, f"template, stripped wildcards and special-character test agree with the specified selection for every template configuration and string shape ({n_cases} cases so far); the template receives the sliced value and the escaped field", f.loc)
+    r.analysed["C01.string_shortcut_cases"] = n_cases
+    r.floor("C01.R7", 2)
 
 
 # ------------------------------------------------------------------------------------------ R8
